@@ -495,6 +495,11 @@ func (g *G) Soup() string {
 	var sb strings.Builder
 	for i := 0; i < n; i++ {
 		if g.R.Chance(2, 5) {
+			if g.R.Chance(1, 6) {
+				// something glued directly in front of an expression
+				g.count("sticky-prefix")
+				sb.WriteString(g.R.Pick(stickyPrefixes))
+			}
 			sb.WriteString(g.expr())
 		} else {
 			sb.WriteString(g.glue())
@@ -505,6 +510,8 @@ func (g *G) Soup() string {
 	}
 	return sb.String()
 }
+
+var stickyPrefixes = []string{"$", "&", "$$", "$&", "&$", "x", "1", "@", ".", ":", "$T", "&T.", "$T.", "$1", "US$", "(", ")", "*", "'", "\"", "-", "/", "$ ", "& "}
 
 var hot = []byte("$&()*'\"-/.[]:, \n")
 
